@@ -9,13 +9,14 @@
 (*  - ToDictList(S) / FromDict: the nested list-of-dicts form.             *)
 (* Canon(S): nested <<dat, did, knd, children>> from the root: the         *)
 (* observable content up to node identity.                                 *)
-(* Only states in which data_id is a function of the data object and vice  *)
-(* versa (SerialOK) are meaningful for serialisation (a reference stores   *)
-(* neither the data nor the id of the repeated occurrence).                *)
+(* Only states in which the nodes of one clone group (same data_id) hold   *)
+(* the same data object (SerialOK) are meaningful for serialisation: a     *)
+(* reference stores neither the data nor the id of the repeated occurrence.*)
+(* One data object under several data_ids is fine: those are not clones.   *)
 (***************************************************************************)
 EXTENDS Nutree
 
-SerialOK(S) == \A i, j \in Reach(S) : (S.dat[i] = S.dat[j]) <=> (S.did[i] = S.did[j])
+SerialOK(S) == \A i, j \in Reach(S) : (S.did[i] = S.did[j]) => (S.dat[i] = S.dat[j])
 
 RECURSIVE CanonSeq(_, _)
 CanonSeq(S, seq) == [i \in 1..Len(seq) |-> <<S.dat[seq[i]], S.did[seq[i]], S.knd[seq[i]], CanonSeq(S, S.kids[seq[i]])>>]
